@@ -70,6 +70,20 @@ func (c *tpCase) run() (v *hx.Violation) {
 					}
 				}
 			}
+		case "constant-of-shape":
+			// the tensor is the one-element `value` attribute: the output (2 elements) must repeat it with its type
+			g := &onnx.GraphProto{Name: "g", Initializer: []*onnx.TensorProto{hx.TensorProto("shape", ref.I64Vec(2), "raw")},
+				Node:   []*onnx.NodeProto{{OpType: "ConstantOfShape", Input: []string{"shape"}, Output: []string{"c"}, Attribute: []*onnx.AttributeProto{{Name: "value", Type: onnx.AttributeProto_TENSOR, T: tp}}}},
+				Output: []*onnx.ValueInfoProto{hx.ValueInfoNoShape("c")}}
+			var m *gonnx.Model
+			m, err = gonnx.NewModelFromBytes(hx.Marshal(hx.Model(g, 13)))
+			if err == nil {
+				var outs gonnx.Tensors
+				outs, err = m.Run(gonnx.Tensors{})
+				if err == nil {
+					got = outs["c"]
+				}
+			}
 		case "constant":
 			g := &onnx.GraphProto{Name: "g", Node: []*onnx.NodeProto{{OpType: "Constant", Output: []string{"c"}, Attribute: []*onnx.AttributeProto{{Name: "value", Type: onnx.AttributeProto_TENSOR, T: tp}}}},
 				Output: []*onnx.ValueInfoProto{hx.ValueInfoNoShape("c")}}
@@ -161,7 +175,7 @@ func checkC12(c *hx.Checker) {
 	thorough := c.Tier == "thorough"
 	c.Rule = "11 storable element types x {typed field, raw little-endian} x all shapes of Box(rank 0..4 [quick 0..3], extents {1,2,3}) with rotating special bit patterns (NaN payloads, extremes, negatives) + every value of 8/16-bit types (all 256 / 65536) + structured 32/64-bit alphabets; " +
 		"payload faults per (type, encoding, shape): raw length -1 byte, -1 element, +1 byte, +1 element, empty, doubled; typed field -1 element, +1 element, empty; both encodings populated; negative / zero dims; every other data_type code 0..22 and 99 with each typed field (and raw) populated; " +
-		"observed at onnx.TensorFromProto, as initializer returned by a zero-node model (NewModelFromBytes + Run) and as Constant value. non-trivial = every case (distinct (type, encoding, shape/fault, observation point))"
+		"observed at onnx.TensorFromProto, as initializer returned by a zero-node model (NewModelFromBytes + Run), as Constant value and as the one-element value attribute of ConstantOfShape (rank 0, 1, 2). non-trivial = every case (distinct (type, encoding, shape/fault, observation point))"
 	c.Assumptions = []string{"reference decoder: declared dims x declared type, typed carriers per the ONNX TensorProto comments (int32_data for (u)int8/16, int32, bool; uint64_data for uint32/64), raw = little-endian fixed width; element count must equal the dims product exactly",
 		"typed carrier values are in range of the element type (as in valid files); bool carriers are 0/1"}
 	var cases []tpCase
@@ -250,6 +264,32 @@ func checkC12(c *hx.Checker) {
 				tp.Dims = dims
 				add(tp, "error", nil, fmt.Sprintf("%s/%s/dims%v", dt, enc, dims), append(base, "fault=bad-dims")...)
 			}
+		}
+	}
+	// ConstantOfShape value attribute (one-element tensor of any storable type, rank 0, 1 or 2)
+	for _, dt := range storable {
+		for _, enc := range []string{"typed", "raw"} {
+			for k := 0; k < 3; k++ {
+				for _, sh := range [][]int{{}, {1}, {1, 1}} {
+					one := patternFill(dt, []int{7}, k)
+					v := &ref.T{DT: dt, Shape: sh, V: []uint64{one.V[k*2]}}
+					exp := &ref.T{DT: dt, Shape: []int{2}, V: []uint64{v.V[0], v.V[0]}}
+					expect := "exact"
+					if dt == ref.Bool {
+						expect = "exact-or-error" // a bool fill may be refused (C11), never decoded differently
+					}
+					if dt.IsFloat() && ref.DecF(dt, v.V[0]) == 0 {
+						continue // -0 fill is compared numerically by C11; the bit-exact oracle here skips zeros
+					}
+					cases = append(cases, tpCase{ReplayKind: "tensorproto", TP: tpB64(hx.TensorProto("", v, enc)), Via: "constant-of-shape", Expect: expect, Expected: hx.ToTJ(exp), Desc: fmt.Sprintf("%s/%s/%v/%d via constant-of-shape", dt, enc, sh, k)})
+					tags = append(tags, []string{"via=constant-of-shape", "expect=" + expect, "dtype=" + dt.String(), "enc=" + enc})
+				}
+			}
+			t2 := patternFill(dt, []int{1}, 1)
+			tp := hx.TensorProto("", t2, enc)
+			tp.RawData, tp.FloatData, tp.DoubleData, tp.Int32Data, tp.Int64Data, tp.Uint64Data = nil, nil, nil, nil, nil, nil
+			cases = append(cases, tpCase{ReplayKind: "tensorproto", TP: tpB64(tp), Via: "constant-of-shape", Expect: "error", Desc: fmt.Sprintf("%s/%s/no-payload via constant-of-shape", dt, enc)})
+			tags = append(tags, []string{"via=constant-of-shape", "expect=error", "dtype=" + dt.String(), "enc=" + enc, "fault=no-payload", "payload-count-mismatch"})
 		}
 	}
 	// every other data_type code with each typed field (and raw) populated
